@@ -201,7 +201,7 @@ def cmd_check(prop, tier):
         for k in load_known():
             if k.get("status") == "known" and k.get("property") == prop:
                 kf.write(k["fingerprint"] + "\n")
-    cap = 60 if tier == "quick" else 1500
+    cap = 90 if tier == "quick" else 900
     peer_files = {}
     if any(len(u) > 5 for u in units):      # version-skew: the peer build writes its records first
         refs = ":".join(sorted(glob.glob(os.path.join(REPO, "*", "test", "*.sk"))))
@@ -330,7 +330,8 @@ def cmd_check(prop, tier):
             print("  shipped reference image %s is read differently than by the baseline: %s" % (j["file"], j["detail"][:300]))
             reported.append(dict(fingerprint="C10|reference-image|" + j["file"], replay=rp, detail=j["detail"][:300]))
             exit_code = 1
-    if nondet or det_mismatch or harness_errors:
+    machinery_failed = bool(nondet or det_mismatch or harness_errors)
+    if machinery_failed:
         for n in nondet:
             log("NONDETERMINISM", json.dumps(n))
         log("machinery failure: nondeterminism=%d determinism-audit mismatches=%d harness errors=%d" % (len(nondet), det_mismatch, harness_errors))
@@ -364,6 +365,11 @@ def cmd_check(prop, tier):
             if exit_code == 0:
                 exit_code = 1
         seen_fp.add(v["fingerprint"])
+    if reported and exit_code == 2:
+        # a violation that kept its fingerprint through the in-run re-execution and the fresh-process replay stands, even when traces of the same run
+        # differed between executions: then it is the code under test that is not a function of its input (e.g. it hashes an address)
+        log("reporting %d reproduced violation(s) although executions of the same run differed (see machinery lines above)" % len(reported))
+        exit_code = 1
     wall = time.time() - t_start
     zero_probes = []
     ev = dict(property_id=prop, tier=tier, seed=seed, level=spec["level"], wall_s=round(wall, 2), violations=len(reported),
